@@ -14,6 +14,8 @@
 (*   [t |-> "ss", v |-> Seq(STRING)] map[string]struct{}                    *)
 (*   [t |-> "d", v |-> "DNE"]        the DNE sentinel of TryEval            *)
 (*   [t |-> "nil", v |-> "nil"]      Go nil (unbound slot of a slice ctx)   *)
+(*   [t |-> "x", v |-> type name]    a Go value of a type the engine has no  *)
+(*                                   case for (e.g. an int constant)         *)
 (*   [t |-> "e", v |-> kind]         an error; kind is a string, see below  *)
 (*   [t |-> "p", v |-> site]         a Go panic (only as-built deviations)  *)
 (*                                                                         *)
